@@ -100,3 +100,10 @@ MACRO_PROTOTYPES = {
     "HEX_GET_INSN_RMODE": ("RzFloatRMode", ["HexInsn"], "HEX_GET_INSN_RMODE"),
     "HEX_SETROUND": ("void", ["HexInsn", "RzFloatRMode"], "HEX_SETROUND"),
 }
+
+# Plugin calls the shortcode uses directly (T-PLUGIN): name -> (C return type or "void", parameter types; None = passed by name, not an IL value)
+LEGACY_CALLS = {
+    "get_npc": ((False, 32), [None]),                                            # next program counter of the packet: a 32-bit address
+    "STORE_SLOT_CANCELLED": ("void", ["HexPkt *", (False, 8)]),                 # (packet, slot number 0..3)
+    "WRITE_REG": ("void", ["HexPktInsnBundle", "HexOp", (False, 32)]),          # (bundle, operand, 32-bit value)
+}
